@@ -48,12 +48,12 @@ Theorem C15_no_panic :
 Proof. exact rcn_total. Qed.
 
 (* totality after the C06 hardening (for C06): no hypothesis on the input.  The A1 scanner and
-   get_dimension as of HEAD (u64 saturating accumulators, u32::try_from, saturating_sub): *)
+   get_dimension as of HEAD (u64 saturating accumulators, u32::try_from, saturating_sub; Col26.v): *)
 Theorem C15_no_panic_get_row_column :
-  forall range, sf_get_row_column range <> Panic /\ sf_get_row_column range <> OutOfFuel.
+  forall range, get_row_column range <> Panic /\ get_row_column range <> OutOfFuel.
 Proof. exact no_panic_get_row_column. Qed.
 Theorem C15_no_panic_get_dimension :
-  forall d, sf_get_dimension d <> Panic /\ sf_get_dimension d <> OutOfFuel.
+  forall d, get_dimension d <> Panic /\ get_dimension d <> OutOfFuel.
 Proof. exact no_panic_get_dimension. Qed.
 (* replace_cell_names, in the <> form; and the shared-formula part of next_formula /
    worksheet_formula on any sequence of <c> elements — any ref attribute (inverted, huge,
